@@ -63,11 +63,12 @@ Definition num_le (a b : num) : bool :=
   | NF x, NI y => match int_float_cmp y x with Some Gt | Some Eq => true | _ => false end
   end.
 
-(* float modulo as in the reference implementation: C fmod, then the result
-   is moved to the sign of the divisor *)
+(* float modulo a - floor(a/b)*b (manual 3.4.1), computed as the reference
+   implementation does: C fmod (exact, sign of a), then moved to the sign of the
+   divisor when the signs differ *)
 Definition fmod_lua (a b : f64) : f64 :=
   let m := fmod a b in
-  if (if fpos0 m then fneg0 b else (fneg0 m && negb (feq m b))) then fadd m b else m.
+  if (fpos0 m && fneg0 b) || (fneg0 m && fpos0 b) then fadd m b else m.
 
 (* x ^ y for the exactly computable cases only: integral exponent 0..1023 and
    integral base, result below 2^53 *)
